@@ -46,6 +46,8 @@ type world struct {
 	compared int
 	found    int
 
+	postMaint func() // runs right after the maintenance call returned (boundary steps)
+
 	soft     bool     // collect mismatches instead of reporting them (state may legitimately lag)
 	softHits []string // what was collected
 }
@@ -894,7 +896,20 @@ func (w *world) doQuery(q *qSpec, why string) {
 	w.compared++
 	if q.Where != nil {
 		w.b.Seen("cond_shapes", q.Where.shape())
-		q.Where.leaves(func(l *cond) { w.b.Seen("leaf_operators", l.Op) })
+		q.Where.leaves(func(l *cond) {
+			w.b.Seen("leaf_operators", l.Op)
+			if l.VI != nil || l.VF != nil {
+				form := l.As
+				if form == "" && l.Text {
+					form = "text"
+				}
+				kind := "int-operator"
+				if strings.HasPrefix(l.Op, "f") {
+					kind = "float-operator"
+				}
+				w.b.Seen("operand_forms", kind+":"+form)
+			}
+		})
 	}
 	if ierr != nil {
 		cls := "query"
@@ -1068,6 +1083,9 @@ func (w *world) doMaintain(o op) {
 	}
 	t1 := nowS()
 	w.b.Count("op/"+o.K, 1)
+	if w.postMaint != nil {
+		w.postMaint()
+	}
 	after := w.physical()
 	removed := 0
 	for k, was := range before {
@@ -1168,6 +1186,51 @@ func (w *world) doWait(o op) {
 		w.flushByWriter()
 	}
 	w.doQuery(&qSpec{Prefix: key}, "after-expiry")
+}
+
+// doBoundary runs maintenance during the very second in which a record expires: a record
+// with Expires == E is visible as long as the clock reads <= E (CheckValidity: expired
+// iff Expires < now), so maintenance at second E must neither remove nor hide it. The
+// step is judged only if the same clock portbase reads shows E before the maintenance
+// call and still E after the reads that follow it; otherwise it is skipped and counted.
+func (w *world) doBoundary(o op) {
+	key := o.Key
+	mr := w.m.recs[key]
+	if mr == nil || mr.tainted || !mr.stored || mr.meta.deleted || mr.meta.expires.v == 0 || mr.meta.expires.slack != 0 {
+		w.b.Count("boundary_steps_skipped", 1)
+		return
+	}
+	E := mr.meta.expires.v
+	w.doGet(key) // read back intact before the boundary (also marks the key as verified)
+	if nowS() > E || E-nowS() > 3 {
+		w.b.Count("boundary_steps_skipped", 1)
+		return
+	}
+	for nowS() < E {
+		time.Sleep(2 * time.Millisecond)
+	}
+	kind := "maintain_states"
+	if o.Off != 0 {
+		kind = "maintain_direct"
+	}
+	var tBefore, tAfter int64
+	w.postMaint = func() {
+		w.phase = "at-expiry-second-" + kind
+		w.doGet(key)
+		w.doExists(key)
+		w.doQuery(&qSpec{Prefix: key}, "boundary")
+		w.phase = ""
+		tAfter = nowS()
+	}
+	tBefore = nowS()
+	w.doMaintain(op{K: kind})
+	w.postMaint = nil
+	if tBefore == E && tAfter == E {
+		w.b.Count("boundary_steps_judged", 1)
+		w.b.Count("boundary_steps_judged/"+w.cfg.Backend, 1)
+	} else {
+		w.b.Count("boundary_steps_skipped", 1)
+	}
 }
 
 // ---------------------------------------------------------------------------------
@@ -1284,6 +1347,9 @@ func (w *world) run() {
 		case "readback":
 			w.b.Count("op/readback", 1)
 			w.readback(3)
+		case "boundary":
+			w.b.Count("op/boundary", 1)
+			w.doBoundary(o)
 		case "wait_abs", "wait_rel", "wait_put":
 			w.b.Count("op/"+o.K, 1)
 			w.doWait(o)
